@@ -148,7 +148,7 @@ def run(ctx):
         base = [gp.Prog.from_json(ctx.replay["replay"]["program"])]
     else:
         base = [gp.parse_simple(w) for w in WITNESSES] + cc.load_corpus("C08")
-        want = ctx.n(60, 2000)
+        want = ctx.n(45, 2000)
         while len(base) < want:
             p = gp.gen_program(ctx.rng)
             if len(p.queries()) + len(p.evidence()) >= 2:
